@@ -1,5 +1,6 @@
 // mint.cc - C03 certificate/CRL minting with OpenSSL 3.0 libcrypto (independent DER encoder).
 // No MatrixSSL header is included here.
+#define OPENSSL_SUPPRESS_DEPRECATED
 #include "mint.h"
 
 #include <openssl/asn1.h>
@@ -8,6 +9,7 @@
 #include <openssl/evp.h>
 #include <openssl/objects.h>
 #include <openssl/pem.h>
+#include <openssl/rand.h>
 #include <openssl/sha.h>
 #include <openssl/x509.h>
 #include <openssl/x509v3.h>
@@ -20,6 +22,35 @@ namespace mint {
 // deliberately never destroyed: the pool must stay reachable until process exit (LeakSanitizer runs after static destructors)
 static std::vector<KeyInfo> &g_info = *new std::vector<KeyInfo>();
 static std::vector<EVP_PKEY *> &g_keys = *new std::vector<EVP_PKEY *>();
+
+// ---- deterministic randomness for libcrypto ------------------------------------------------------------------
+// ECDSA signing draws its nonce from RAND.  To make every minted byte a pure function of the case (replays and
+// shrinking must see the same certificates), libcrypto's RAND is replaced by a counter-mode generator that the
+// harness reseeds at the start of each case.  (RAND_set_rand_method is deprecated in 3.0 but still honoured.)
+static uint64_t g_rs = 1, g_rc = 0;
+static uint64_t mix64(uint64_t x)
+{
+    x += 0x9E3779B97F4A7C15ULL;
+    x = (x ^ (x >> 30)) * 0xBF58476D1CE4E5B9ULL;
+    x = (x ^ (x >> 27)) * 0x94D049BB133111EBULL;
+    return x ^ (x >> 31);
+}
+static int det_bytes(unsigned char *buf, int num)
+{
+    for (int i = 0; i < num; i += 8)
+    {
+        uint64_t v = mix64(g_rs * 0x100000001B3ULL + g_rc++);
+        memcpy(buf + i, &v, (size_t) (num - i < 8 ? num - i : 8));
+    }
+    return 1;
+}
+static int det_seed(const void *, int) { return 1; }
+static int det_add(const void *, int, double) { return 1; }
+static int det_status(void) { return 1; }
+void reseed(uint64_t seed)
+{
+    g_rs = seed; g_rc = 0;
+}
 
 const char *kind_name(KeyKind k)
 {
@@ -42,6 +73,16 @@ bool init(const std::string &dir, std::string *err)
     if (!g_keys.empty())
     {
         return true;
+    }
+    {
+        static RAND_METHOD m;
+        memset(&m, 0, sizeof m);
+        m.seed = det_seed; m.bytes = det_bytes; m.add = det_add; m.pseudorand = det_bytes; m.status = det_status;
+        if (RAND_set_rand_method(&m) != 1)
+        {
+            if (err) *err = "RAND_set_rand_method failed";
+            return false;
+        }
     }
     for (auto &e : pool)
     {
@@ -140,7 +181,27 @@ static void sig_postop(ASN1_BIT_STRING *sig, X509_ALGOR *alg, int op, unsigned b
 {
     if (op == SIGOP_FLIPBIT && sig->length > 0)
     {
-        unsigned idx = (bit / 8) % (unsigned) sig->length;
+        // The flipped bit must change the signature *value*.  For an ECDSA-Sig-Value (SEQUENCE { INTEGER r, INTEGER s }) only
+        // the significant content octets of r and s qualify: a flip in a tag/length octet may merely yield another (non-DER)
+        // encoding of the same (r, s), which is an encoding-strictness matter (C09/C11) and not a forged signature.
+        std::vector<int> cand;
+        const unsigned char *d = sig->data;
+        int n = sig->length, p = 0;
+        if (n > 8 && d[0] == 0x30)
+        {
+            p = 1;
+            if (d[p] & 0x80) p += 1 + (d[p] & 0x7f); else p += 1;
+            for (int k = 0; k < 2 && p + 2 <= n && d[p] == 0x02 && !(d[p + 1] & 0x80); k++)
+            {
+                int l = d[p + 1], st = p + 2;
+                if (st + l > n) { cand.clear(); break; }
+                for (int i = (l > 1 && d[st] == 0x00) ? 1 : 0; i < l; i++) cand.push_back(st + i);
+                p = st + l;
+            }
+            if (p != n) cand.clear();
+        }
+        if (cand.empty()) for (int i = 0; i < n; i++) cand.push_back(i);
+        int idx = cand[(bit / 8) % cand.size()];
         sig->data[idx] ^= (unsigned char) (1u << (bit % 8));
     }
     else if (op == SIGOP_REPLACE)
